@@ -1,6 +1,127 @@
-(* C04 -- placeholder while the development is being built; replaced below *)
-From Coq Require Import List.
-From GY Require Import Model.Schema.
+(* C04 -- a clean Process yields proper trees and really means there were no errors.
+   Only statements, closed by [exact], and non-vacuity examples.
+
+   [Process] (Model/Schema.v) models Modules.Process over abstract module sources; [TreeInv], [ForestInv], the
+   stages [stage_*], [final_applied], [heights_okb] are in Spec/C04.v.  Entries of the model are immutable trees:
+   parent pointers and object identity do not exist in it; those two clauses of the property are checked on the
+   implementation by the pointer-level walker of harness/go/resolve.go (treeviol), see check/props/c04.py. *)
+From Coq Require Import List NArith Bool.
+From GY Require Import Model.Schema Spec.C04 Proofs.SchemaLemmas Proofs.TreeInvProofs.
 Import ListNotations.
-Theorem C04_stub : forall e, locate e [] = Some e.
-Proof. intros; reflexivity. Qed.
+
+(* T1 (every clause but one, unconditional): whatever the module set, the options and the visiting order, every tree
+   of a clean result is proper -- every child is filed under its own name, the keys of a child map are pairwise
+   distinct, leaves and leaf-lists have a type and no child map, every other kind has a child map, list attributes sit
+   only on leaf-lists and lists, rpc input/output have their kind and name -- recursively through child maps and rpc
+   input/output. *)
+Theorem C04_T1_tree_invariant : forall SC ignoreCirc ignoreNotSupported order F,
+  Process SC ignoreCirc ignoreNotSupported order = ROk F -> ForestInv false F.
+Proof. exact Process_TreeInv_weak. Qed.
+
+(* T1 (all clauses, "every child of a choice is a case" included) -- PARTIAL: under two side conditions that are
+   computable and evaluated by check/props/c04.py on every generated case:
+   (h1) the reporting pass Augment(true) applies no augment (the rounds of {retry loop; FixChoice} had reached their
+        fixpoint) and (h2) the depth measurement that fixes FixChoice's fuel was not cut off at entry_fuel.
+   Missing: a proof that (h1) and (h2) hold for every module set (h1 is C07's "no applicable augment is left",
+   h2 a bound on tree heights by the size of the sources). *)
+Theorem C04_T1_choice_clause_partial : forall SC ignoreCirc ignoreNotSupported order F,
+  Process SC ignoreCirc ignoreNotSupported order = ROk F ->
+  final_applied SC ignoreCirc order = 0 -> heights_okb SC ignoreCirc order = true -> ForestInv true F.
+Proof. exact Process_TreeInv_full_b. Qed.
+
+(* what establishes the clause: FixChoice with fuel twice the height of a proper tree makes every child of every
+   choice a case and keeps the rest of the invariant; with any fuel it keeps the other clauses, names and kinds *)
+Theorem C04_fix_choice_establishes : forall fuel h e,
+  HeightLe h e -> 2 * h <= fuel -> TreeInv false e -> TreeInv true (fix_choice fuel e).
+Proof. exact fix_choice_strict. Qed.
+
+Theorem C04_fix_choice_preserves : forall fuel e, TreeInv false e ->
+  TreeInv false (fix_choice fuel e) /\ e_name (fix_choice fuel e) = e_name e /\ e_kind (fix_choice fuel e) = e_kind e.
+Proof. exact fix_choice_weak. Qed.
+
+(* the constructors and transformations, one by one *)
+Theorem C04_to_entry : forall SC fuel c busy n, TreeInv false (fst (to_entry SC fuel c busy n)).
+Proof. exact to_entry_inv. Qed.
+
+Theorem C04_add : forall s acc v,
+  dir_ok s (fst acc) -> TreeInv s (fst v) -> dir_ok s (fst (add_child acc (e_name (fst v)) v)).
+Proof. exact add_child_ok. Qed.
+
+Theorem C04_merge : forall s ns oe acc,
+  dir_ok s (fst acc) -> elems_ok s oe -> dir_ok s (fst (merge_dir acc ns oe)).
+Proof. exact merge_dir_ok. Qed.
+
+Theorem C04_module_entry : forall SC ignoreCirc m, TreeInv false (fst (module_entry SC ignoreCirc m)).
+Proof. exact module_entry_inv. Qed.
+
+Theorem C04_find_lazy_io : forall SC s F ctx start name,
+  ForestInv s F -> ForestInv s (snd (Find SC F ctx start name)).
+Proof. exact Find_inv. Qed.
+
+Theorem C04_augment : forall SC pending F err addErrors,
+  ForestInv false F -> AugsOk pending ->
+  ForestInv false (fst (fst (fst (augment_module SC F err pending addErrors)))) /\
+  AugsOk (snd (augment_module SC F err pending addErrors)).
+Proof. exact augment_module_inv. Qed.
+
+Theorem C04_deviations : forall SC ignoreNotSupported s m devs F err,
+  ForestInv s F -> ForestInv s (fst (apply_deviations SC ignoreNotSupported F err m devs)).
+Proof. exact apply_deviations_inv. Qed.
+
+(* T2: the complete list of ways in which Process reports an error: include/import resolution fails, some module or
+   submodule entry carries an error (ToEntry, uses, duplicates, deviate statements), or the flag is up after the
+   augment rounds, the reporting pass and the deviations *)
+Theorem C04_T2_error_iff : forall SC ignoreCirc ignoreNotSupported order,
+  Process SC ignoreCirc ignoreNotSupported order = RErr <->
+  includes_fail SC = true \/ (exists m, In m SC /\ snd (module_entry SC ignoreCirc m) = true) \/
+  stage_err4 SC ignoreCirc ignoreNotSupported order = true.
+Proof. exact Process_err_iff. Qed.
+
+(* ... and the flag never falls: an error recorded while augmenting (conflict, erroneous augment body) or by the
+   reporting pass is still there at the end *)
+Theorem C04_T2_no_error_lost : forall SC ignoreCirc ignoreNotSupported order,
+  (stage_err1 SC ignoreCirc order = true -> stage_err3 SC ignoreCirc order = true) /\
+  (stage_err3 SC ignoreCirc order = true -> stage_err4 SC ignoreCirc ignoreNotSupported order = true).
+Proof. exact stage_err_mono. Qed.
+
+(* Augment(true) reports every augment it cannot apply *)
+Theorem C04_T2_unapplied_reported : forall SC pending F err,
+  snd (augment_module SC F err pending true) <> [] ->
+  snd (fst (fst (augment_module SC F err pending true))) = true.
+Proof. exact augment_module_report. Qed.
+
+(* no augment is left pending in a clean result: every module the reporting pass visits (those the rounds left with
+   pending augments) ends with an empty list *)
+Theorem C04_T2_no_pending_augment : forall SC ignoreCirc ignoreNotSupported order F,
+  Process SC ignoreCirc ignoreNotSupported order = ROk F ->
+  forall mn, In mn (stage_mods1 SC ignoreCirc order) -> pend_of (stage_P3 SC ignoreCirc order) mn = [].
+Proof. exact Process_ok_no_pending. Qed.
+
+(* ------------------------------------------------------------------ non-vacuity *)
+Definition s (x : list nat) : str := map N.of_nat x.
+Definition n_a := s [97]. Definition n_b := s [98]. Definition n_c := s [99]. Definition n_x := s [120].
+Definition n_g := s [103]. Definition n_m := s [109]. Definition n_p := s [112].
+Definition t_string := s [115;116;114;105;110;103].
+Definition lf (n : str) := DLeaf n t_string TSUnset TSUnset None None.
+
+(* module m { prefix p; grouping g { leaf x; choice c { leaf b; } }  container a { uses g; }
+              augment "/p:a" { leaf b; } }   -- leaf b under choice c gets its implicit case *)
+Definition ex_mod : module :=
+  {| m_name := n_m; m_prefix := n_p; m_ns := s [117]; m_belongs := None; m_imports := []; m_includes := [];
+     m_body := [DGrouping 1 n_g [lf n_x; DChoice n_c TSUnset TSUnset None [lf n_b]]; DContainer n_a TSUnset [DUses n_g]];
+     m_augments := [(s [47;112;58;97], [lf n_b])]; m_deviations := [] |}.
+
+Example C04_ex_clean : exists F, Process [ex_mod] false false [n_m] = ROk F /\
+  final_applied [ex_mod] false [n_m] = 0 /\ heights_okb [ex_mod] false [n_m] = true /\
+  match locate_pos F (n_m, [SChild n_a; SChild n_c; SChild n_b; SChild n_b]) with
+  | Some e => e_kind e = KLeaf | None => False end.
+Proof. eexists. split; [vm_compute; reflexivity|]. vm_compute. repeat split. Qed.
+
+(* a late conflict: the augment adds a name the uses already brought: error, not a clean result *)
+Definition ex_conflict : module :=
+  {| m_name := n_m; m_prefix := n_p; m_ns := s [117]; m_belongs := None; m_imports := []; m_includes := [];
+     m_body := [DGrouping 1 n_g [lf n_x]; DContainer n_a TSUnset [DUses n_g]];
+     m_augments := [(s [47;112;58;97], [lf n_x])]; m_deviations := [] |}.
+Example C04_ex_conflict : Process [ex_conflict] false false [n_m] = RErr /\
+  stage_err1 [ex_conflict] false [n_m] = true.
+Proof. vm_compute. split; reflexivity. Qed.
